@@ -22,7 +22,7 @@ from vlib import core  # noqa: E402
 
 ACC = {"READ": "ARead", "WRITE": "AWrite", "READWRITE": "AReadWrite", "INC": "AInc",
        "READINC": "AReadInc", "SUM": "ASum", "UNKNOWN": "AUnknown"}
-DEFAULT = (["INC"], True)      # parameters of the unchanged tree (fallback only)
+DEFAULT = (["INC", "READINC"], False)      # parameters of the tree at HEAD (fallback only)
 
 
 class TranslateError(Exception):
@@ -139,6 +139,24 @@ def omploop_guard_present(tsrc):
     return True
 
 
+def accloop_options_faithful(tsrc):
+    """ACCLoopTrans.apply/_directive: the directive gets `seq` iff options["sequential"] (what the model's
+    accloop_dir assumes); any other shape raises"""
+    tree = ast.parse(tsrc)
+    txt = [_txt(s) for s in _body(_find(tree, "ACCLoopTrans", "apply"))]
+    want = ["if not options:\n    options = {}", "self._independent = options.get('independent', True)",
+            "self._sequential = options.get('sequential', False)", "self._gang = options.get('gang', False)",
+            "self._vector = options.get('vector', False)", "super().apply(node, options)"]
+    if sorted(txt) != sorted(want):
+        raise TranslateError("ACCLoopTrans.apply: unexpected statements: " + " | ".join(txt))
+    txt = [_txt(s) for s in _body(_find(tree, "ACCLoopTrans", "_directive"))]
+    want = ["directive = ACCLoopDirective(children=children, collapse=collapse, independent=self._independent, "
+            "sequential=self._sequential, gang=self._gang, vector=self._vector)", "return directive"]
+    if txt != want:
+        raise TranslateError("ACCLoopTrans._directive: unexpected statements: " + " | ".join(txt))
+    return True
+
+
 def translate(repo=None):
     repo = Path(repo or core.REPO)
     psrc = (repo / "src/psyclone/domain/common/psylayer/psyloop.py").read_text()
@@ -146,6 +164,7 @@ def translate(repo=None):
     incs = has_inc_arg_accesses(psrc)
     sc = ompparloop_shortcut(tsrc)
     omploop_guard_present(tsrc)
+    accloop_options_faithful(tsrc)
     return incs, sc
 
 
